@@ -7,7 +7,9 @@ exponent), plus `<M>_bounds` from param_default_bounds.
 
 Subset: straight-line numeric code (Assign to a local, Return, + - * / unary -, `**`, numpy.log/exp/sqrt/power,
 self.params['x'], self.<attr> for instance attributes such as minus_rt).  Four idioms are recognised as such:
-  * `if numpy.isnan(res).any(): res = numpy.nan_to_num(res, copy=False)`    -> res = nan_div num den (0/0 |-> 0)
+  * `if numpy.isnan(res).any(): res = numpy.nan_to_num(res)`                -> res = nan_div num den (0/0 |-> 0)
+    (the older spelling `nan_to_num(res, copy=False)` is REFUSED: with numpy 2 it raises ValueError for scalar input, so
+     the pointwise reading "0/0 |-> 0" would not describe the method for Python floats / numpy scalars / 0-d arrays)
   * optimize.root(lambda x: self.f(x) - y) / optimize.minimize((self.f(x) - y)**2)  -> relation `<M>_<g>_spec params y x`
   * integrate.quad(lambda x: self.loading(x) / x, 0, p)[0]                    -> RInt (fun x => loading x / x) 0 p
   * `return NotImplementedError` / `raise NotImplementedError`                -> no definition
@@ -87,7 +89,7 @@ def strip_doc(body):
     return body
 
 
-NAN_IF = "if numpy.isnan(res).any():\n    res = numpy.nan_to_num(res, copy=False)"
+NAN_IF = "if numpy.isnan(res).any():\n    res = numpy.nan_to_num(res)"
 ROOT_RE = re.compile(
     r"^def fun\(x\):\n    return self\.(\w+)\(x\) - (\w+)\n"
     r"opt_res = optimize\.root\(fun, numpy\.zeros_like\(\2\), method='hybr'\)\n"
@@ -104,6 +106,8 @@ QUAD_RE = re.compile(r"^return integrate\.quad\(lambda x: self\.(\w+)\(x\) / x, 
 def method_ir(fd, fn, params, attrs):
     if len(fd.args.args) != 2 or fd.args.args[0].arg != 'self' or fd.args.vararg or fd.args.kwarg or fd.args.kwonlyargs or fd.args.defaults:
         bail(fn, fd, 'signature of ' + fd.name)
+    if fd.decorator_list:
+        bail(fn, fd, 'decorator on %s (memoisation / wrapping changes what the method returns)' % fd.name)
     arg = fd.args.args[1].arg
     body = strip_doc(fd.body)
     text = '\n'.join(ast.unparse(s) for s in body)
